@@ -668,9 +668,11 @@ def p2_configs (cfg):
       for plan, waits in ((ABA, [2]), (ABBA, [3]), (ABA, [])):
         if (bl, plan, waits) != (0, ABA, [2]): addb(bl, plan, waits, 1, 0)
   else:
+    addb(0, ABA, [2], 2, 0); addb(1, ABA, [2], 2, 0); addb(0, ABBA, [3], 2, 0)
     for bl in range(len(BACKLOGS)):
       for plan, waits in ((ABA, [2]), (ABBA, [3]), (ABA, [])):
-        addb(bl, plan, waits, 2, 0); addb(bl, plan, waits, 1, 1)
+        if waits: addb(bl, plan, waits, 1, 1)
+        else: addb(bl, plan, waits, 1, 0)
   if not cfg.quick:
     add(1, ONE, None, 2, 2, pipe_buf=3)
     add(1, ONE, 0, 2, 1, rotate=True)
